@@ -530,3 +530,88 @@ func C17_introspect() {
 	}
 	sym.Assert(found == 1, "directive listed once")
 }
+
+// C17_roots: the root operation types introspection reports are the ones the
+// schema binds - through the implied schema (types with the default names),
+// an explicit schema block (any names, operations left out stay unbound even
+// when a type with the default name exists) or a schema block completed by
+// extend schema.
+func C17_roots() {
+	explicit := sym.Choice("schema block", 3) // 0: implied; 1: schema block; 2: schema block, mutation bound by extend schema
+	qName := "Query"
+	if explicit != 0 && sym.Choice("query type name", 2) == 1 {
+		qName = "Q" + nameToken("query type name byte") // S: any two-byte name (the type table is ordered by name)
+	}
+	hasM := sym.Choice("type named Mutation", 2) == 1
+	hasS := sym.Choice("type named Subscription", 2) == 1
+	mBound, sBound := "", ""
+	if explicit == 0 {
+		if hasM {
+			mBound = "Mutation"
+		}
+		if hasS {
+			sBound = "Subscription"
+		}
+	} else {
+		switch sym.Choice("mutation binding", 3) {
+		case 1:
+			mBound = "Mut"
+		case 2:
+			if hasM {
+				mBound = "Mutation"
+			}
+		}
+		switch sym.Choice("subscription binding", 3) {
+		case 1:
+			sBound = "Sub"
+		case 2:
+			if hasS {
+				sBound = "Subscription"
+			}
+		}
+	}
+	src := "type " + qName + " { a: Int m: Mut s: Sub"
+	if hasM {
+		src += " dm: Mutation"
+	}
+	if hasS {
+		src += " ds: Subscription"
+	}
+	src += " }\ntype Mut { x: Int }\ntype Sub { y: Int }\n"
+	if hasM {
+		src += "type Mutation { x: Int }\n"
+	}
+	if hasS {
+		src += "type Subscription { y: Int }\n"
+	}
+	if explicit != 0 {
+		src += "schema { query: " + qName
+		if mBound != "" && explicit == 1 {
+			src += " mutation: " + mBound
+		}
+		if sBound != "" {
+			src += " subscription: " + sBound
+		}
+		src += " }\n"
+		if mBound != "" && explicit == 2 {
+			src += "extend schema { mutation: " + mBound + " }\n"
+		}
+	}
+	sym.Observe("src", src)
+	root := ggql.NewRoot(&c17Res{})
+	sym.Assert(root.ParseString(src) == nil, "model schema accepted")
+	res := root.ResolveString("{__schema{queryType{name} mutationType{name} subscriptionType{name}}}", "", nil)
+	sym.Assert(res["errors"] == nil, "introspection request resolves without error")
+	data, _ := res["data"].(map[string]interface{})
+	schema, _ := data["__schema"].(map[string]interface{})
+	sym.Assert(schema != nil, "__schema present")
+	want := func(name string) interface{} {
+		if name == "" {
+			return nil
+		}
+		return map[string]interface{}{"name": name}
+	}
+	sym.Assert(sym.DeepEqual(schema["queryType"], want(qName)), "queryType")
+	sym.Assert(sym.DeepEqual(schema["mutationType"], want(mBound)), "mutationType is the bound type")
+	sym.Assert(sym.DeepEqual(schema["subscriptionType"], want(sBound)), "subscriptionType is the bound type")
+}
